@@ -457,7 +457,9 @@ def setup_repo_path():
     if REPO not in sys.path:
         sys.path.insert(0, REPO)
     import warnings
+    import logging
     warnings.filterwarnings("ignore")
+    logging.disable(logging.CRITICAL)
     import bionumpy  # noqa
     got = os.path.dirname(os.path.dirname(os.path.abspath(bionumpy.__file__)))
     if os.path.realpath(got) != os.path.realpath(REPO):
